@@ -21,6 +21,9 @@ from ..core.outcome import Violation
 NAME = "ctrlsim"
 SIM_UNIT = "controller steps"
 BUDGET = {"quick": {"runs": 24000, "wall": 80}, "thorough": {"runs": 400000, "wall": 900}}
+ISOLATE = "chunk"       # every chunk of runs in a forked child of a pristine worker: what a run sees of the process is a
+                        # deterministic function of the runs before it in the same chunk (see runner.run_history_iso)
+CHUNK = 128
 SHRINK_LISTS = ("ops",)
 PROBES = {"C20": ["stop:budget", "stop:patience", "stop:reject", "stop:tol", "step-after-stop",
                   "reset-after-stop", "reset-with-stale-patience", "exact-threshold", "batched-mixed",
@@ -490,7 +493,7 @@ def _drive_mpc_default(plan, out, tr):
     Q = (M @ M.T + torch.eye(ns + nc, dtype=dt)).repeat(1, T, 1, 1)
     p = rng.randn(s, ("p",), (1, T, ns + nc), dt)
     cfg = {"patience": 5, "decreasing": 1e-3, "tol": 1e-5}
-    for o in plan["ops"] + [{"id": 90}, {"id": 91}]:
+    for o in plan["ops"] + [{"id": 90 + k_} for k_ in range(6)]:
         sysm = SmoothNLS(W1, W2, W3, 1.0, 0.0)
         mpc = pp.module.MPC(sysm, Q, p, T)
         costs = []
